@@ -2,6 +2,8 @@ import DimodProofs.Pack
 import DimodProofs.Vectors
 import DimodProofs.CooText
 import DimodProofs.BytesDoc
+import DimodProofs.PickleReduce
+import DimodProofs.CooVars
 
 /-! # C11 — serializable / JSON / pickle / copy round trips
 
@@ -279,5 +281,70 @@ example : packRow [true, false, true] = [5] := by decide
 example : packRow (List.replicate 33 true) = [4294967295, 1] := by decide
 example : (packSamples [[], []] 0).shape = (2, 0) := by decide
 example : unpackRow [5] 3 = [true, false, true] := by decide
+
+
+/-! ## round 7: pickle at `__reduce__` / `__getstate__` level (`DimodModel/PickleReduce.lean`); the variables of a loaded COO text -/
+
+section round7
+open Pack CooText
+
+/-- **`pickle.loads(pickle.dumps(cybqm))` at the level of the tuple `__reduce__` returns**
+    (`from_numpy_vectors, (ldata, qdata, off, vartype, labels)` with `to_numpy_vectors(return_labels=True)`, consumed with
+    `labels` as `variable_order`): for whatever order the writer lists the variables in (the interactions unsorted, as `sort_indices=False` leaves them), the
+    rebuilt model has the vartype, the offset, the same variables (as a permutation), the same linear bias under every label and
+    the same quadratic bias under every pair of labels -/
+theorem pickle_cybqm_reduce_roundtrip (b : CyBQM) (order : List Nat) (hnd : b.labels.Nodup)
+    (hlen : b.labels.length = b.body.lin.length) (hperm : order.Perm (List.range b.labels.length))
+    (hq : ∀ t ∈ b.body.quad, t.1 < b.body.lin.length ∧ t.2.1 < b.body.lin.length) :
+    (b.pickleRoundTrip order).vt = b.vt ∧ (b.pickleRoundTrip order).body.offset = b.body.offset ∧
+    (b.pickleRoundTrip order).labels.Perm b.labels ∧
+    (∀ v ∈ b.labels, (b.pickleRoundTrip order).linear v = b.linear v) ∧
+    (∀ u ∈ b.labels, ∀ v ∈ b.labels, (b.pickleRoundTrip order).quadratic u v = b.quadratic u v) :=
+  pickle_cybqm b order hnd hlen hperm hq
+
+/-- **the Python-level object** (`object.__reduce_ex__`: state = `__dict__`, set back with `__dict__.update`): the rebuilt
+    object's `data` is the rebuilt cy model and the bound methods stored by `@forwarding_method` come back under the same names,
+    bound to the REBUILT `data` (they are pickled as `getattr(data, name)`), so it reads what the original reads -/
+theorem pickle_pyobject_state_roundtrip (o : PyBQM) (order : List Nat) (hnd : o.data.labels.Nodup)
+    (hlen : o.data.labels.length = o.data.body.lin.length) (hperm : order.Perm (List.range o.data.labels.length))
+    (hq : ∀ t ∈ o.data.body.quad, t.1 < o.data.body.lin.length ∧ t.2.1 < o.data.body.lin.length) :
+    (o.getstate order).setstate = ⟨o.data.pickleRoundTrip order, o.fwd⟩ ∧
+    (∀ v ∈ o.data.labels, (o.getstate order).setstate.data.linear v = o.data.linear v) ∧
+    (∀ u ∈ o.data.labels, ∀ v ∈ o.data.labels, (o.getstate order).setstate.data.quadratic u v = o.data.quadratic u v) :=
+  ⟨rfl, (pickle_cybqm o.data order hnd hlen hperm hq).2.2.2.1, (pickle_cybqm o.data order hnd hlen hperm hq).2.2.2.2⟩
+
+/-- **`SampleSet.__getstate__`**: pickling a pending (future-backed, hooked) sample set first resolves it — the state holds the
+    record the deferred hook chain produces (or the call raises when a hook does), the `Variables` come back with the same labels in
+    the same order, `info` as it is; the rebuilt object is no longer pending, so a second round trip gives the same state -/
+theorem pickle_sampleset_state (x : SSM.LSS) (vars : _root_.VState) (info : Info) (hinv : vars.Inv) :
+    (ssGetstate x vars info).map (·.record) = x.resolve ∧
+    (∀ st, ssGetstate x vars info = some st →
+      st.variables.abs = vars.abs ∧ st.variables.Inv ∧ st.info = info ∧
+      (ssGetstate (.res st.record) st.variables st.info).map (fun t => (t.record, t.variables.abs, t.info)) =
+        some (st.record, vars.abs, info)) := by
+  refine ⟨by simp [ssGetstate, Function.comp_def], ?_⟩
+  intro st hst
+  simp only [ssGetstate, Option.map_eq_some_iff] at hst
+  obtain ⟨s, _, rfl⟩ := hst
+  have h1 := VState.pickle_spec vars hinv
+  have h2 := VState.pickle_spec vars.pickleRoundTrip h1.1
+  exact ⟨h1.2, h1.1, rfl, by simp [ssGetstate, SSM.LSS.resolve, h2.2, h1.2]⟩
+
+/-- **the variables of `coo.loads(coo.dumps(bqm))`**: the text is accepted, and a label is a variable of the loaded model iff it
+    is a variable of the written one with a non-zero linear bias or an interaction (a variable with zero bias and no interaction
+    has no line: it is not in the format) -/
+theorem coo_loaded_variables (hdr : Bool) (vt : SSM.VT) (arg : Option SSM.VT) (labels : List Nat) (lin : Nat → Rat) (quad : Nat → Nat → Option Rat)
+    (hsym : ∀ a b, quad a b = quad b a) (hvt : vt = .spin ∨ vt = .binary) (harg : arg = some vt ∨ (arg = none ∧ hdr = true)) :
+    ∃ calls, loads arg (dumps hdr vt labels lin quad) = some (vt, calls) ∧
+      ∀ u, u ∈ varsOf calls ↔ u ∈ labels ∧ (lin u ≠ 0 ∨ ∃ v ∈ labels, v ≠ u ∧ (quad u v).isSome) :=
+  ⟨_, loads_dumps hdr vt arg labels lin quad hvt harg, varsOf_loaded labels lin quad hsym⟩
+
+/-- a two-variable model written in the order `[1, 0]` (labels `b`, `a` sorted): the hypotheses are met and the tuple is as coded -/
+example : (CyBQM.reduce ⟨[.str "b", .str "a"], .spin, ⟨[1, 2], [(1, 0, 3)], 5⟩⟩ [1, 0]).labels = [.str "a", .str "b"] := by decide +kernel
+example : (CyBQM.reduce ⟨[.str "b", .str "a"], .spin, ⟨[1, 2], [(1, 0, 3)], 5⟩⟩ [1, 0]).ldata = [2, 1] := by decide +kernel
+example : (CyBQM.pickleRoundTrip ⟨[.str "b", .str "a"], .spin, ⟨[1, 2], [(1, 0, 3)], 5⟩⟩ [1, 0]).linear (.str "b") = 1 := by decide +kernel
+example : [1, 0].Perm (List.range 2) := by decide
+
+end round7
 
 end C11
